@@ -2,6 +2,7 @@ import Frp.Model.HttpRewrite
 import Frp.Model.HttpPool
 import Frp.Model.HttpTime
 import Frp.Lemmas.HttpRewrite
+import Frp.Props.C01
 /-
   C02 — HTTP proxying preserves requests and responses apart from declared rewrites.   (partial)
 
@@ -26,7 +27,14 @@ import Frp.Lemmas.HttpRewrite
       written (`header_timeout_bounded`); any deadline on the whole exchange would cut some stream
       and some tunnel (`ctx_deadline_cuts_stream`, `ctx_deadline_cuts_tunnel`);
     * the synthetic pool host determines (domain, location, routeUser, endpoint)
-      (`poolKey_injective`, `distinct_routes_distinct_keys`).
+      (`poolKey_injective`, `distinct_routes_distinct_keys`);
+    * upgrades need a hijackable writer, and `ServeHTTP` hands the reverse proxy the server's own
+      (`frp_upgrade_switches`, `upgrade_needs_hijacker`, predicate `tunnelHolds`);
+    * end to end (section Tunnel, on top of Frp/Props/C01.lean): through frps' `GetRealConn` stack and
+      frpc's stack the request / answer bodies arrive unchanged for every combination of
+      useEncryption / useCompression / bandwidthLimit mode, every burst > 0, any framing, any write
+      pattern, any chunking of the wire (`e2e_request_delivered`, `e2e_response_delivered`,
+      `e2e_*_prefix`, `e2e_exchange_transparent`, `limited_write_whole`, predicate `e2eHolds`).
 
   What FAILS on the code as it is (witnesses, reproduced on the real code by engine `http`)
     * `pool_stale_owner_witness`: idle backend connections survive `UnRegister`, a route
@@ -933,6 +941,43 @@ theorem ctx_deadline_cuts_tunnel (L : Limits) (d : Nat) (hL : L.reqCtx = some d)
       simp [upgrade, relay, hL, expired, deliver, hpos, h0, tunnel]
   · rw [upgrade_tunnel_transparent { L with reqCtx := none } rfl 0 0 hpos]
 
+/-- `ServeHTTP` hands the reverse proxy a writer that can be hijacked, so an upgrade IS the model's
+    `upgrade` (and not the error answer) -/
+theorem frp_upgrade_switches (L : Limits) (dial think : Nat) (ps : List TPiece) :
+    upgradeThrough frpRW L dial think ps = some (upgrade L dial think ps) := rfl
+
+/-- why the capability matters: behind a writer that is not a Hijacker no upgrade ever becomes a tunnel -/
+theorem upgrade_needs_hijacker (L : Limits) (dial think : Nat) (ps : List TPiece) :
+    upgradeThrough { hijacker := false } L dial think ps = none := rfl
+
+/-- executable predicate for upgrade / CONNECT ops, evaluated on the implementation's own result:
+    `reached` = a backend received the handshake of THIS op (and, being the recording backend, accepted
+    it with 101 / 200), `fresh` = `freshB` for that backend, `st` = the status the user got, `want` =
+    101 (upgrade) or 200 (CONNECT), `upOk` / `downOk` = every tunnel byte of that direction arrived
+    (len + FNV), `page` = the user got frp's not-found page.  The backend's acceptance must reach the
+    user and the connection must then be a byte-transparent tunnel; without a backend the only answer
+    is 404 + page. -/
+def tunnelHolds (reached fresh : Bool) (st want : Nat) (upOk downOk page : Bool) : Bool :=
+  if reached then fresh && decide (st = want) && upOk && downOk else decide (st = 404) && page
+
+theorem tunnelHolds_sound (reached fresh : Bool) (st want : Nat) (upOk downOk page : Bool) :
+    tunnelHolds reached fresh st want upOk downOk page = true ↔
+      (reached = true → fresh = true ∧ st = want ∧ upOk = true ∧ downOk = true) ∧
+      (reached = false → st = 404 ∧ page = true) := by
+  cases reached <;> simp [tunnelHolds, and_assoc]
+
+/-- the model of the code as it is meets the predicate for every time line: the 101 arrives, and what
+    the tunnel relays is, per direction, exactly what was sent -/
+theorem tunnelHolds_model (L : Limits) (hL : L.reqCtx = none) (dial think : Nat)
+    (hlt : think < L.respHeader) (ps : List TPiece) :
+    ∃ rel, upgradeThrough frpRW L dial think ps = some (.backend, rel, false) ∧
+      tunnelHolds true true 101 101
+        (dirData .up rel == dirData .up (ps.map (fun p => (p.dir, p.data))))
+        (dirData .down rel == dirData .down (ps.map (fun p => (p.dir, p.data)))) false = true := by
+  refine ⟨ps.map (fun p => (p.dir, p.data)), ?_, ?_⟩
+  · rw [frp_upgrade_switches, upgrade_tunnel_transparent L hL dial think hlt]
+  · simp [tunnelHolds]
+
 /-- executable predicate for the driver, evaluated on what the implementation reported for an
     exchange with time line outcome `o` (an untimed exchange is the time line without gaps):
     `reached` = the backend recorded the complete request, `st504` = the user got 504 with an empty
@@ -967,6 +1012,164 @@ example :
   decide +kernel
 
 end Time
+
+/-! ## end to end: the exchange through the tunnel (every tunnel option, every burst)
+
+  Between frps' `http.Transport` and the local service lies the work connection with the wrappers of
+  server/proxy/http.go `GetRealConn` on one end (`Layers.httpRealConnStack`: encryption, compression,
+  server-side limiter) and those of client/proxy/proxy.go `HandleTCPWorkConnection` on the other
+  (`Layers.clientStack`: client-side limiter, encryption, compression).  C01 proves that pair byte
+  transparent for every option combination (`C01.tunnel_down_complete`, `C01.tunnel_up_complete`; the
+  limiter's part is `C01.writer_chunks`).  Composed with the body clauses above: whatever the rewrite
+  hook leaves of a request / an answer is what the other side of the tunnel receives — for any lawful
+  cipher / compression layers, any write pattern of the sender, any chunking of the wire, any
+  framing `frame` (identity for Content-Length, chunked encoding, …: net/http's, opaque here) and any
+  serialised header block `head`. -/
+section Tunnel
+open Layers Limit
+
+/-- server/proxy/http.go `GetRealConn`: the wrappers frps puts on the work connection of an http
+    proxy, as one layer -/
+def httpServerLayer (encL compL : Layer) (burst : Nat) (o : Opts) : Layer :=
+  stackLayer (instantiate encL compL burst (httpRealConnStack o))
+
+/-- it is the stack of `handleUserTCPConnection` (same wrappers, same order) -/
+theorem httpServerLayer_eq (encL compL : Layer) (burst : Nat) (o : Opts) :
+    httpServerLayer encL compL burst o = C01.serverLayer encL compL burst o := rfl
+
+/-- **request, complete**: the `Transport` writes the request of `backendSees` in any pieces `ps`; once
+    the wire carried all of it, the local service has received the header block followed by the
+    body the USER sent, framed as sent — for every option combination and every burst > 0 -/
+theorem e2e_request_delivered {encL compL : Layer} (he : Lawful encL) (hc : Lawful compL)
+    (burst : Nat) (hb : 0 < burst) (o : Opts)
+    (rc : Option RouteCfg) (q : Req) (peer : Option Str) (tls : Bool)
+    (head : C01Bytes) (frame : Str → C01Bytes) (ps cs : List C01Bytes)
+    (hps : ps.flatten = head ++ frame (backendSees rc q peer tls).body)
+    (hw : cs.flatten = ((httpServerLayer encL compL burst o).Eout ps).flatten) :
+    (C01.clientLayer encL compL burst o).Dout cs = head ++ frame q.body := by
+  rw [C01.tunnel_down_complete he hc burst hb o ps cs hw, hps,
+      (request_line_body_untouched rc q peer tls).2.2.2.2.1]
+
+/-- **request, at any moment**: whatever part of the wire arrived so far, in whatever chunking, what
+    the local service has received is a prefix of that — never other bytes -/
+theorem e2e_request_prefix {encL compL : Layer} (he : Lawful encL) (hc : Lawful compL)
+    (burst : Nat) (hb : 0 < burst) (o : Opts)
+    (rc : Option RouteCfg) (q : Req) (peer : Option Str) (tls : Bool)
+    (head : C01Bytes) (frame : Str → C01Bytes) (ps cs : List C01Bytes)
+    (hps : ps.flatten = head ++ frame (backendSees rc q peer tls).body)
+    (hw : cs.flatten <+: ((httpServerLayer encL compL burst o).Eout ps).flatten) :
+    (C01.clientLayer encL compL burst o).Dout cs <+: head ++ frame q.body := by
+  have h := C01.tunnel_down_prefix he hc burst hb o ps cs hw
+  rwa [hps, (request_line_body_untouched rc q peer tls).2.2.2.2.1] at h
+
+/-- **answer, complete**: the local service writes its answer (header block, framed body `r.body`) in
+    any pieces `rs`; once the wire carried all of it the `Transport` has read exactly that, and the
+    user is given status and body of `r` -/
+theorem e2e_response_delivered {encL compL : Layer} (he : Lawful encL) (hc : Lawful compL)
+    (burst : Nat) (hb : 0 < burst) (o : Opts)
+    (rc : Option RouteCfg) (m : Str) (r : Resp)
+    (head : C01Bytes) (frame : Str → C01Bytes) (rs cs : List C01Bytes)
+    (hrs : rs.flatten = head ++ frame r.body)
+    (hw : cs.flatten = ((C01.clientLayer encL compL burst o).Eout rs).flatten) :
+    (httpServerLayer encL compL burst o).Dout cs = head ++ frame r.body ∧
+    (userSees rc m r).status = r.status ∧
+    (userSees rc m r).body = if m = ofString "HEAD" then [] else r.body := by
+  refine ⟨?_, response_status_body rc m r⟩
+  rw [httpServerLayer_eq, C01.tunnel_up_complete he hc burst hb o rs cs hw, hrs]
+
+theorem e2e_response_prefix {encL compL : Layer} (he : Lawful encL) (hc : Lawful compL)
+    (burst : Nat) (hb : 0 < burst) (o : Opts) (r : Resp)
+    (head : C01Bytes) (frame : Str → C01Bytes) (rs cs : List C01Bytes)
+    (hrs : rs.flatten = head ++ frame r.body)
+    (hw : cs.flatten <+: ((C01.clientLayer encL compL burst o).Eout rs).flatten) :
+    (httpServerLayer encL compL burst o).Dout cs <+: head ++ frame r.body := by
+  have h := C01.tunnel_up_prefix he hc burst hb o rs cs hw
+  rwa [hrs] at h
+
+/-- **the whole exchange**, all tunnel options at once: request and answer bodies cross the tunnel
+    unchanged whatever `useEncryption`, `useCompression`, `bandwidthLimit` (> 0, either mode) are -/
+theorem e2e_exchange_transparent {encL compL : Layer} (he : Lawful encL) (hc : Lawful compL)
+    (rc : Option RouteCfg) (q : Req) (peer : Option Str) (tls : Bool) (r : Resp)
+    (hq hr : C01Bytes) (frame : Str → C01Bytes) (ps rs : List C01Bytes)
+    (hps : ps.flatten = hq ++ frame (backendSees rc q peer tls).body)
+    (hrs : rs.flatten = hr ++ frame r.body) :
+    ∀ (o : Opts) (burst : Nat), 0 < burst →
+      (∀ cs, cs.flatten = ((httpServerLayer encL compL burst o).Eout ps).flatten →
+        (C01.clientLayer encL compL burst o).Dout cs = hq ++ frame q.body) ∧
+      (∀ cs, cs.flatten = ((C01.clientLayer encL compL burst o).Eout rs).flatten →
+        (httpServerLayer encL compL burst o).Dout cs = hr ++ frame r.body) ∧
+      (userSees rc q.method r).status = r.status ∧
+      (q.method ≠ ofString "HEAD" → (userSees rc q.method r).body = r.body) := by
+  intro o burst hb
+  refine ⟨fun cs hw => e2e_request_delivered he hc burst hb o rc q peer tls hq frame ps cs hps hw,
+          fun cs hw => (e2e_response_delivered he hc burst hb o rc q.method r hr frame rs cs hrs hw).1,
+          (response_status_body rc q.method r).1, fun hm => ?_⟩
+  rw [(response_status_body rc q.method r).2, if_neg hm]
+
+/-- **the limiter's share**: ONE `Write` of a body of ANY size through `limit.Writer` (the 16 KiB /
+    32 KiB copy buffers of `libio.Join` / `http.Transport` are larger than a small `bandwidthLimit`)
+    leaves as pieces that concatenate to the body, each `WaitN` request is for the piece itself and
+    never exceeds the burst (so `WaitN` cannot refuse it), and the `n` returned is `len(p)` -/
+theorem limited_write_whole (b : Nat) (hb : 0 < b) (p : C01Bytes) :
+    (chunks b p).flatten = p ∧ (∀ x ∈ writerTrace b p, x.1 ≤ b ∧ x.1 = x.2.length) ∧
+    writerN b p = p.length :=
+  ⟨C01.writer_chunks b hb p, C01.writer_requests_admissible b hb p, (C01.writer_tokens b hb p).2⟩
+
+/-- what engine `httpe2e` observed of one exchange through a real frps + frpc pair -/
+structure E2eObs where
+  beOk     : Bool      -- the request reached the backend of the proxy its Host names
+  tagOk    : Bool      -- the answer the user got is that backend's
+  lineOk   : Bool      -- method and request target as sent
+  upWant   : Str       -- request body sent (value: `len.fnv`, or the bytes themselves when short)
+  upGot    : Str       -- request body the backend received
+  stWant   : Nat
+  st       : Nat
+  downWant : Str
+  downGot  : Str
+  ended    : Bool      -- the user's read ended at the end of the body
+deriving DecidableEq, Repr
+
+/-- executable predicate for the driver, evaluated on the implementation's own result -/
+def e2eHolds (o : E2eObs) : Bool :=
+  o.beOk && o.tagOk && o.lineOk && o.upGot == o.upWant && o.st == o.stWant && o.downGot == o.downWant && o.ended
+
+theorem e2eHolds_sound (o : E2eObs) :
+    e2eHolds o = true ↔ o.beOk = true ∧ o.tagOk = true ∧ o.lineOk = true ∧ o.upGot = o.upWant ∧
+      o.st = o.stWant ∧ o.downGot = o.downWant ∧ o.ended = true := by
+  simp [e2eHolds, and_assoc]
+
+/-- the predicate asks for no more than the theorems give: an observation made of what the model's
+    tunnel delivers (both directions complete) satisfies it, for every option combination -/
+theorem model_e2eHolds {encL compL : Layer} (he : Lawful encL) (hc : Lawful compL)
+    (burst : Nat) (hb : 0 < burst) (o : Opts)
+    (rc : Option RouteCfg) (q : Req) (peer : Option Str) (tls : Bool) (r : Resp)
+    (ps rs : List C01Bytes)
+    (hps : ps.flatten = (backendSees rc q peer tls).body) (hrs : rs.flatten = r.body) :
+    e2eHolds { beOk := true, tagOk := true, lineOk := true,
+               upWant := q.body,
+               upGot := (C01.clientLayer encL compL burst o).Dout ((httpServerLayer encL compL burst o).Eout ps),
+               stWant := r.status, st := (userSees rc q.method r).status,
+               downWant := r.body,
+               downGot := (httpServerLayer encL compL burst o).Dout ((C01.clientLayer encL compL burst o).Eout rs),
+               ended := true } = true := by
+  have h1 := e2e_request_delivered he hc burst hb o rc q peer tls [] id ps _ (by simpa using hps) rfl
+  have h2 := e2e_response_delivered he hc burst hb o rc q.method r [] id rs _ (by simpa using hrs) rfl
+  simp only [List.nil_append, id] at h1 h2
+  simp [e2eHolds, h1, h2.1, h2.2.1]
+
+/-- non-vacuity: cipher- and compression-shaped lawful layers exist (`C01.toyEnc`, `C01.toyComp`); a
+    7-byte body written as [2 bytes][5 bytes] through encryption + compression + a server-side
+    limiter of burst 3 arrives whole, and so does the answer on the way back -/
+example : (C01.clientLayer C01.toyEnc C01.toyComp 3 ⟨true, true, true, false⟩).Dout
+    ((httpServerLayer C01.toyEnc C01.toyComp 3 ⟨true, true, true, false⟩).Eout [[1, 2], [3, 4, 5, 6, 7]]) = [1, 2, 3, 4, 5, 6, 7] := by
+  decide
+example : (httpServerLayer C01.toyEnc C01.toyComp 3 ⟨true, true, false, true⟩).Dout
+    ((C01.clientLayer C01.toyEnc C01.toyComp 3 ⟨true, true, false, true⟩).Eout [[1, 2, 3, 4, 5, 6, 7]]) = [1, 2, 3, 4, 5, 6, 7] := by
+  decide
+example : chunks 3 [1, 2, 3, 4, 5, 6, 7] = [[1, 2, 3], [4, 5, 6], [7]] ∧
+    (writerTrace 3 [1, 2, 3, 4, 5, 6, 7]).map (·.1) = [3, 3, 1] := by decide
+
+end Tunnel
 
 /-! ## non-vacuity -/
 
